@@ -963,6 +963,17 @@ theorem call_reach (A : Arith K) (s : State K) (hs : Reach A s) (op : Op K) :
     · rw [h1, h2]; exact ⟨rfl, hs⟩
     · rw [h1, h2]; exact ⟨rfl, hr⟩
 
+theorem clone_eq (s : State K) : clone s = s := by cases s; rfl
+
+/-- Every constructible object (new / default / clone / after calls, nested at will) has canonical tables. -/
+theorem reach_build (A : Arith K) : ∀ b : Build K, Reach A (b.state A)
+  | .new => reach_new A
+  | .default => reach_new A
+  | .clone b => by
+    show Reach A (clone (b.state A))
+    rw [clone_eq]; exact reach_build A b
+  | .call b op => (call_reach A _ (reach_build A b) op).2
+
 theorem reach_after (A : Arith K) (h : List (Op K)) : Reach A (after A h) := by
   unfold after
   suffices ∀ s, Reach A s → Reach A (h.foldl (step A) s) from this _ (reach_new A)
